@@ -36,6 +36,8 @@ IsOk(r) == r.k = "ok"
 Rng(o, l) == IF l = 0 THEN [o |-> -1, l |-> 0] ELSE [o |-> o, l |-> l]
 Slice(b, o, l) == IF RangeMode THEN Rng(o, l) ELSE SubSeq(b, o + 1, o + l)
 SliceLen(s) == IF RangeMode THEN s.l ELSE Len(s)
+(* length of an extension block slice (the block always ends at the end of its message: hi) *)
+SliceLenOfExt(b, s, hi) == SliceLen(s)
 
 None    == <<>>
 Some(x) == <<x>>
